@@ -255,6 +255,12 @@ func runsFor(prop, tier string) []run {
 				c.MaxAdds = 4
 				return c
 			}(), pick(5, 7), minutes(pickf(0.6, 5))},
+			{"rf2-two-adds-parked-in-create", func() eb.Cfg {
+				c := mk(2, 3, append(append([]string{}, started...), "AddB:1", "AddB:2"))
+				c.Alphabet = []string{"AddF", "Sync", "Verify", "W", "MonFail", "MonWake", "Remove", "AddB"}
+				c.MaxAdds = 4
+				return c
+			}(), pick(5, 6), minutes(pickf(0.4, 3))},
 			{"rf2-overlapping-adds", func() eb.Cfg {
 				c := mk(2, 3, started)
 				c.Alphabet = []string{"AddB", "AddF", "Sync", "Verify", "W", "MonFail", "MonWake", "Remove"}
